@@ -155,14 +155,23 @@ def t_formula(rng, gid, configured=None, cls='FormulaGrader'):
     if r < 0.35:
         fname = pick(rng, ['f', 'g', 'sq'])
         stub = gid + '.' + fname
-        cfg['user_functions'] = {fname: {'__fn__': {'name': stub, 'kind': 'square', 'arity': 1}}}
         v0 = variables[0]
-        answer = '%s+%s(%s)' % (answer, fname, v0)
-        pal['right'] = ['%s + %s(%s)' % (x, fname, v0) for x in rights] + [answer]
-        pal['wrong'] = ['%s + %s(2*%s)' % (rights[0], fname, v0)] + wrongs
-        pal['malformed'] += ['%s(%s,%s)' % (fname, v0, v0), '%s()' % fname, fname]
-        partial = '%s+%s(%s)' % (partial, fname, v0)
-        others = others + ['%s(%s)' % (fname, v0)]
+        if maybe(rng, 0.35):
+            # a two-argument user function
+            cfg['user_functions'] = {fname: {'__fn__': {'name': stub, 'kind': 'sum', 'arity': 2}}}
+            call = '%s(%s,1)' % (fname, v0)
+            bad_arity = '%s(%s)' % (fname, v0)
+        else:
+            cfg['user_functions'] = {fname: {'__fn__': {'name': stub, 'kind': 'square', 'arity': 1,
+                                                        'nin': maybe(rng, 0.3)}}}
+            call = '%s(%s)' % (fname, v0)
+            bad_arity = '%s(%s,%s)' % (fname, v0, v0)
+        answer = '%s+%s' % (answer, call)
+        pal['right'] = ['%s + %s' % (x, call) for x in rights] + [answer]
+        pal['wrong'] = ['%s + %s' % (rights[0], call.replace(v0, '2*' + v0, 1))] + wrongs
+        pal['malformed'] += [bad_arity, '%s()' % fname, fname]
+        partial = '%s+%s' % (partial, call)
+        others = others + [call]
         targets.append({'name': stub, 'n': 2 * cfg.get('samples', 5), 'where': 'fn'})
     elif r < 0.45:
         cfg['user_functions'] = {'h': {'__obj__': {'cls': 'RandomFunction', 'cfg': {}}}}
@@ -476,9 +485,11 @@ def t_interval(rng, gid, configured=None):
     if sub_kind < 0.3:
         cfg['subgrader'] = {'__grader__': {'cls': 'FormulaGrader',
                                            'cfg': {'variables': ['a'], 'tolerance': 1e-10}}}
-    if maybe(rng, 0.2):
-        cfg['opening_brackets'] = '[(<'
-        cfg['closing_brackets'] = '])>'
+    custom = None
+    if maybe(rng, 0.3):
+        custom = pick(rng, ['<>', '{}'])
+        cfg['opening_brackets'] = '[(' + custom[0]
+        cfg['closing_brackets'] = '])' + custom[1]
     if maybe(rng, 0.2):
         cfg['partial_credit'] = False
     if configured:
@@ -495,7 +506,14 @@ def t_interval(rng, gid, configured=None):
     pal = {'right': ['[1,2)', '[ 1 , 2 )', '[2/2, 1+1)'], 'wrong': ['(1,2)', '[1,3)', '[2,1)', '(0,5]'],
            'malformed': ['[1,2', '{1,2}', '[1)', '[1,2,3]', '[,2]', '1,2', '[1,,2]', '[1/0,2)', '[x,2)', '']}
     expects = {'valid': ['[1,2)', '(0,1]', '[ 1, 2 )'],
-               'invalid': ['{1,2}', '[1)', '[1,2,3]', '[,2]', '[1,2', 'ab']}
+               'invalid': ['{1,2}', '<1,2>', '[1)', '[1,2,3]', '[,2]', '[1,2', 'ab']}
+    if custom:
+        # expect strings that only a grader with these extra brackets may accept
+        own = '%s1,2%s' % (custom[0], custom[1])
+        expects['valid'] = expects['valid'] + [own, own]
+        expects['invalid'] = [e for e in expects['invalid'] if e != own]
+        pal['right'] = pal['right'] + ['[1,2)']
+        pal['malformed'] = pal['malformed'] + ['%s1,2)' % custom[0], '|1,2%s' % custom[1]]
     return {'bp': {'id': gid, 'cls': 'IntervalGrader', 'cfg': cfg, 'style': style},
             'configured': configured, 'kind': 'text', 'pal': pal, 'expects': expects, 'targets': [],
             'depth': 1, 'debug': bool(cfg.get('debug'))}
